@@ -381,12 +381,15 @@ def plan_C04(tier, seed):
 
 
 def plan_C09(tier, seed):
-    return infer_plan("c09", tier, ["accepted-but-undecodable"],
+    return infer_plan("c09", tier, ["accepted-but-undecodable", "missing-required-accepted"],
                       INFER_UNIVERSE + "C09: every single-point mutation of every valid encoding (drop a key, add a key, a key in "
                       "another letter case, swap a value's JSON type, push an integer past each sized bound, add a fraction, null, "
                       "array one longer/shorter) that the inferred schema still accepts (validated as a document with exact "
                       "numbers) must decode into T with DisallowUnknownFields; std marshaler types excluded. Mutations are "
-                      "generated by the harness from the real encoding (the specification supplies types and values)")
+                      "generated by the harness from the real encoding (the specification supplies types and values); integers also at "
+                      "the edges of the 64-bit types and congruent to the encoded value modulo 2^8..2^64 (inside the property's range). "
+                      "Second form: every document obtained by deleting ONE member that InferSpec lists as required at its place "
+                      "must be rejected")
 
 
 def plan_C16(tier, seed):
